@@ -590,6 +590,50 @@ def storage_and_conversion(texts, fns):
     return storage, conv
 
 
+def compiler_flags(texts):
+    """flags of yrx_compiler_create: (constant, bit, Compiler method, argument) from
+    `pub const YRX_X: u32 = N;` and the `if flags & YRX_X != 0 { compiler.m(b); }`
+    statements of _yrx_compiler_create; also checks that yrx_compiler_create stores the
+    flags and yrx_compiler_build re-creates the inner compiler with them."""
+    comp = strip_comments(texts["compiler.rs"])
+    consts = re.findall(r"pub\s+const\s+(YRX_[A-Z0-9_]+)\s*:\s*u32\s*=\s*(\d+)\s*;", comp)
+    if len(consts) < 2:
+        raise TranslateError("compiler.rs: flag constants `pub const YRX_X: u32 = N;` not found")
+    body = fn_body(comp, "_yrx_compiler_create")
+    body = re.sub(r"\s+", " ", body).strip()
+    m = re.match(r"let mut compiler = yara_x::Compiler::new\(\); (.*) compiler$", body)
+    if not m:
+        raise TranslateError("_yrx_compiler_create: body is not `let mut compiler = yara_x::Compiler::new(); <ifs> compiler`")
+    rest, found = m.group(1).strip(), []
+    stmt = re.compile(r"if flags & (YRX_[A-Z0-9_]+) != 0 \{ compiler\.([a-z_0-9]+)\((true|false)\); \}\s*")
+    while rest:
+        sm = stmt.match(rest)
+        if not sm:
+            raise TranslateError(f"_yrx_compiler_create: statement not understood: {rest[:100]!r}")
+        found.append((sm.group(1), sm.group(2), sm.group(3)))
+        rest = rest[sm.end():]
+    cmap = dict(consts)
+    out = []
+    for c, meth, arg in found:
+        if c not in cmap:
+            raise TranslateError(f"_yrx_compiler_create tests {c}, which is not a flag constant of compiler.rs")
+        out.append((c, int(cmap[c]), meth, arg))
+    unhandled = [c for c, _ in consts if c not in [f[0] for f in found]]
+    cb = re.sub(r"\s+", "", fn_body(comp, "yrx_compiler_create"))
+    if "inner:_yrx_compiler_create(flags),flags," not in cb:
+        raise TranslateError("yrx_compiler_create does not build `YRX_COMPILER { inner: _yrx_compiler_create(flags), flags }`")
+    bb = re.sub(r"\s+", "", fn_body(comp, "yrx_compiler_build"))
+    rebuilt = "mem::replace(&mutcompiler.inner,_yrx_compiler_create(compiler.flags),)" in bb or \
+              "mem::replace(&mutcompiler.inner,_yrx_compiler_create(compiler.flags))" in bb
+    # the header must define the same constants with the same values
+    hdr = src("capi/include/yara_x.h")
+    hconsts = dict(re.findall(r"#define\s+(YRX_[A-Z0-9_]+)\s+(\d+)", hdr))
+    for c, v in consts:
+        if hconsts.get(c) != v:
+            raise TranslateError(f"capi/include/yara_x.h: {c} is {hconsts.get(c)!r}, compiler.rs says {v}")
+    return out, unhandled, rebuilt
+
+
 def analyse():
     texts, fns, methods = {}, {}, []
     for f in FILES:
@@ -696,6 +740,16 @@ def main():
         L.append(f"  (* {fn.file}:{fn.line} *)")
         L.append(f"  | F_{fn.name} => [" + "; ".join(f"({cv(v)}, {e})" for v, e in paths) + "]")
     L.append("  end.")
+    L.append("")
+    flags, unhandled, rebuilt = compiler_flags({f: src("capi/src/" + f) for f in ["compiler.rs"]})
+    L.append("(* yrx_compiler_create flags: constant, value, yara_x::Compiler method called when the bit is set, its argument")
+    L.append("   (from the `if flags & YRX_X != 0 { compiler.m(b); }` statements of _yrx_compiler_create) *)")
+    L.append("Definition compiler_flags : list (string * N * string * bool) :=\n  [" + ";\n   ".join(
+        f'("{c}", {v}%N, "{m}", {a})' for c, v, m, a in flags) + "].")
+    L.append("(* flag constants of compiler.rs that _yrx_compiler_create does not test *)")
+    L.append("Definition compiler_flags_unhandled : list string := [" + "; ".join(f'"{c}"' for c in unhandled) + "].")
+    L.append("(* yrx_compiler_build replaces the inner compiler by _yrx_compiler_create(compiler.flags) *)")
+    L.append(f"Definition build_recreates_with_flags : bool := {'true' if rebuilt else 'false'}.")
     L.append("")
     write_if_changed("CapiEffects.v", "\n".join(L) + "\n")
     return {"functions": len(table), "paths": sum(len(p) for _, p in table),
